@@ -31,6 +31,7 @@ var boundedPlans = map[string][]boundedRun{
 	"C12": {{"c04", "", false, false}, {"c04", "noasm", false, false}},
 	"C14": {{"c14", "", false, false}, {"c14frames", "", true, false}},
 	"C08": {{"c08", "", true, true}},
+	"C20": {{"c20", "", true, false}, {"c20", "pinned", true, false}},
 }
 
 var boundedRules = map[string]string{
@@ -38,6 +39,7 @@ var boundedRules = map[string]string{
 	"C04": "BOUNDED. Blocks: one match with literal lengths {0,1,14,15,16,270} x match lengths {4,5,18,19,20,274} x offsets {0,1,2,3,4,7,8,15,16,17,18,di,di+1,di+len(dict),di+len(dict)+1,65535} x final literals {0,1,5,12,17} x dictionaries of length {0,1,27,70000}; every truncation and six values at each structural byte of the small ones; two-match blocks whose second match reaches into the first / the dictionary; blocks from a random sequence grammar and bit flips in real compressor output (seeded). Destination exactly large enough, one byte short and five bytes larger. Outcome (error or not), length and bytes must equal the independent decoder's, whatever the destination held before, with nothing written beyond len(dst). Run in the default build (assembly decoder) and with -tags noasm (portable decoder). Non-trivial: blocks longer than 3 bytes; distinct by content hash.",
 	"C14": "BOUNDED. Block level: every string over {a,b} of length 0..12 (0..15 thorough), periodic sources (10 periods x 10 lengths up to 70000) and pseudo-random structured sources are compressed by a fresh compressor object, by five long-lived fast compressor objects and four HC objects whose histories began with other inputs (empty, 72000 repeating bytes, 70000 zeros, 100000 random bytes, one byte) and then served every earlier case, and by the pooled package functions (pool poisoned the same way); HC at depths 0,1,7,512,131072; all outputs must be byte-identical to the fresh object's. Frame level: random contents (0..300001 bytes) and option sets (incl. legacy) written with concurrency 1, 2 and 4 as one Write, a random split, 4099-byte writes and ReadFrom; every frame must be byte-identical to the sequential single-Write frame. Non-trivial: sources longer than 4 bytes / contents longer than one block; distinct by content hash. Goroutine schedules are whatever the runs happened to take (not enumerated).",
 	"C08": "BOUNDED. A finite family of call sequences on concurrent Writers and Readers, run under the Go race detector with every block buffer overwritten (0xDB) at the moment it is returned to the pools, so that a use after release is a reported race or corrupt output: concurrency 2 and 4; 0, 1, 2, 5, 17 blocks of 64 KiB plus a partial one; input as one Write, random splits with and without Flush in between, and ReadFrom; on-block-done callbacks installed; Close, Reset and reuse after Close; a sink failing at its 1st/2nd/3rd write followed by Reset and reuse; the frame read back by a concurrent Reader with small and large buffers and WriteTo; a corrupted block (early error). Each call runs under a 20 s watchdog (a call that does not return is the failure); output must parse, be complete and in submission order; runtime.NumGoroutine must be back at its starting value after Close, after the end of the stream and after an error. Goroutine schedules are whatever the runs took: interleavings are NOT enumerated. Non-trivial: more than one block.",
+	"C20": "BOUNDED. The lz4c binary is built by the check from /repo/cmd/lz4c against /repo's library (go build -modfile with a replace directive; the shipped go.mod pins a release) and run as a process: compress with -size {64K,256K,1M,4M} x -l {0,9} x [-bc] x [-sc] on files of 0, 1, 1000, 65535, 65536, 65537, 131072, 262144, 300001 bytes (random and repetitive; modes 644/600/640; a longer stale output file present), then uncompress in another directory; stdin to stdout both ways; four files on one command line. The .lz4 file must be exactly one well-formed frame (independent frame parser) decoding to the file; -bc / -sc / -size must show in the descriptor as the usage text says; the output must equal what the library writes at the requested level; uncompress must restore bytes and permission bits. A second build with the go.mod as shipped is probed with one -bc case. Non-trivial: files larger than one 64 KiB block.",
 	"C12": "BOUNDED. The C04 family is run in the default build (assembly decoder) and with -tags noasm (portable decoder); both must give the outcome, length and bytes of the same independent decoder on every case, hence the same as each other. Non-trivial: blocks longer than 3 bytes; distinct by content hash.",
 }
 
@@ -89,6 +91,24 @@ func cmdBounded(args []string) int {
 		}
 		a := []string{"test", "-v", "-overlay", ovFile, "-vet=off", "-count=1", "-timeout", "1500s", "-run", test}
 		poisonNote := ""
+		var extraEnv []string
+		if pr.mode == "c20" {
+			lz4c, berr := buildLz4c(scratch, pr.tags == "pinned")
+			if berr != "" {
+				violations++
+				dir := filepath.Join(vd, "replays", *prop)
+				os.MkdirAll(dir, 0o755)
+				path := filepath.Join(dir, "bounded_c20_build_"+map[bool]string{true: "pinned", false: "repo"}[pr.tags == "pinned"]+".json")
+				d, _ := json.MarshalIndent(map[string]interface{}{"property": *prop, "confirmed": false, "origin": "go build of /repo/cmd/lz4c", "harness_output": truncate(berr, 8000)}, "", " ")
+				os.WriteFile(path, d, 0o644)
+				fmt.Printf("VIOLATION property=%s replay=%s no-failing-input-found\n  lz4c does not build: %s\n", *prop, path, truncate(firstLine(berr), 300))
+				continue
+			}
+			extraEnv = append(extraEnv, "LZ4VERIF_LZ4C="+lz4c)
+			if pr.tags == "pinned" {
+				extraEnv = append(extraEnv, "LZ4VERIF_C20_PINNED=1")
+			}
+		}
 		if pr.race {
 			a = append(a, "-race")
 			// the pool's Put, with the buffer overwritten first: derived mechanically from the working tree
@@ -109,7 +129,7 @@ func cmdBounded(args []string) int {
 				poisonNote = " (lz4block.Put not found in its usual form: buffers not poisoned in this run)"
 			}
 		}
-		if pr.tags != "" {
+		if pr.tags != "" && pr.mode != "c20" {
 			a = append(a, "-tags", pr.tags)
 		}
 		a = append(a, ".")
@@ -117,6 +137,7 @@ func cmdBounded(args []string) int {
 		cmd.Dir = pkgDir
 		cmd.Env = append(os.Environ(), "GOFLAGS=-mod=mod", "GOPROXY=off", "GOSUMDB=off", "GOTOOLCHAIN=local",
 			"LZ4VERIF_BOUNDED="+pr.mode, "LZ4VERIF_HARNESS="+pr.mode, "LZ4VERIF_TIER="+*tier, "LZ4VERIF_SEED="+strconv.Itoa(seed), "GOCACHE="+goCache())
+		cmd.Env = append(cmd.Env, extraEnv...)
 		t1 := time.Now()
 		outB, _ := cmd.CombinedOutput()
 		out := string(outB)
@@ -141,10 +162,27 @@ func cmdBounded(args []string) int {
 			continue
 		}
 		// a failing case, a build failure or a crash: all of them are reported
+		if pr.mode == "c20" && pr.tags == "pinned" {
+			known := false
+			for _, kf := range loadKnownFindings(filepath.Join(vd, "known_findings.txt")) {
+				if kf.Property == *prop && kf.Obligation == "bounded/c20/pinned-release" && strings.Contains(out, "LZ4VERIF-FAIL") {
+					fmt.Printf("KNOWN-FINDING: property=%s %s (bounded/c20/pinned-release)\n", *prop, kf.Text)
+					known = true
+				}
+			}
+			if known {
+				runs = append(runs, "pinned build: known finding reproduced")
+				continue
+			}
+		}
 		violations++
 		dir := filepath.Join(vd, "replays", *prop)
 		os.MkdirAll(dir, 0o755)
-		path := filepath.Join(dir, fmt.Sprintf("bounded_%s_%s.json", pr.mode, map[bool]string{true: "noasm", false: "default"}[pr.tags != ""]))
+		tagName := pr.tags
+		if tagName == "" {
+			tagName = "default"
+		}
+		path := filepath.Join(dir, fmt.Sprintf("bounded_%s_%s.json", pr.mode, tagName))
 		confirmed := strings.Contains(out, "LZ4VERIF-FAIL") || strings.Contains(out, "WARNING: DATA RACE")
 		rep := map[string]interface{}{"property": *prop, "family": pr.mode, "build": build, "confirmed": confirmed,
 			"origin": "bounded enumeration on the real code (engine/harness/lz4block_replay_test.go.txt, TestLz4verifBounded)", "harness_output": truncate(out, 12000)}
@@ -188,4 +226,36 @@ func cmdBounded(args []string) int {
 		return 1
 	}
 	return 0
+}
+
+
+// buildLz4c builds /repo/cmd/lz4c into the scratch directory: against /repo's library (a copy of its
+// go.mod with a replace directive, passed with -modfile), or exactly as shipped (pinned).
+func buildLz4c(scratch string, pinned bool) (bin string, errText string) {
+	src := filepath.Join(repoDir, "cmd", "lz4c")
+	name := "lz4c_repo"
+	args := []string{"build"}
+	if pinned {
+		name = "lz4c_pinned"
+	} else {
+		mod, err := os.ReadFile(filepath.Join(src, "go.mod"))
+		if err != nil {
+			return "", err.Error()
+		}
+		sum, _ := os.ReadFile(filepath.Join(src, "go.sum"))
+		mf := filepath.Join(scratch, "lz4c.mod")
+		os.WriteFile(mf, append(mod, []byte("\nreplace github.com/pierrec/lz4/v4 => "+repoDir+"\n")...), 0o644)
+		os.WriteFile(filepath.Join(scratch, "lz4c.sum"), sum, 0o644)
+		args = append(args, "-modfile="+mf)
+	}
+	bin = filepath.Join(scratch, name)
+	args = append(args, "-o", bin, ".")
+	cmd := exec.Command("go", args...)
+	cmd.Dir = src
+	cmd.Env = append(os.Environ(), "GOFLAGS=-mod=mod", "GOPROXY=off", "GOSUMDB=off", "GOTOOLCHAIN=local", "GOCACHE="+goCache())
+	out, err := cmd.CombinedOutput()
+	if err != nil {
+		return "", string(out) + err.Error()
+	}
+	return bin, ""
 }
